@@ -149,7 +149,7 @@ func checkC01(c *Ctx, r *Report) {
 	checkC05(c, tmp5)
 	n5 := 0
 	for _, o := range tmp5.Obls {
-		if o.Rule == "G-base" || o.Rule == "G-prefix" || o.Rule == "G-cutset" || o.Rule == "G-rooted" || o.Rule == "O5-parents" || o.Rule == "K2" || o.Rule == "K2b" || o.Rule == "K3" || (o.Rule == "D1+D5" && (strings.Contains(o.Construct, `tag=""`))) {
+		if o.Rule == "G-base" || o.Rule == "G-prefix" || o.Rule == "G-cutset" || o.Rule == "G-rooted" || o.Rule == "O5-parents-clean" || o.Rule == "O5-parents" || o.Rule == "K2" || o.Rule == "K2b" || o.Rule == "K3" || (o.Rule == "D1+D5" && (strings.Contains(o.Construct, `tag=""`))) {
 			o.Rule = "plan-" + o.Rule
 			r.Obls = append(r.Obls, o)
 			n5++
